@@ -154,7 +154,9 @@ impl HdlcDeframer {
                 // it's recognised as one. A frame of exactly max_size bytes is
                 // still allowed.
                 if bits.len() > self.max_size * 8 + 7 {
-                    return Ok(State::Unsynced(0xff));
+                    // This bit may be the start of the closing flag, which the
+                    // next frame may share.
+                    return Ok(State::Unsynced(0x7f | (bit << 7)));
                 }
                 if bit > 0 {
                     bits.push(1);
